@@ -4,6 +4,7 @@
   the per-broker response handling); everything Kafka answers is the parameter `env`.
 -/
 import BurrowVerif.Proofs.Cluster
+import BurrowVerif.Generated.SaramaShim
 
 namespace Burrow.Props.C11
 open Burrow Burrow.Cluster Burrow.Spec.Cluster
@@ -100,5 +101,10 @@ example : (cycle CState.init env1).2 =
 example : (cycle CState.init env1).1.fetchMetadata = true := by decide
 example : cycleOuts (runLoop "c0" CState.init [.reaper none none, .offset env1, .metadata, .reaper (some []) (some ["g"]), .offset env1]) =
     runCycles CState.init [(false, env1), (true, env1)] := by decide
+
+/-- What the module is answered IS what the Kafka client answered: the shim between the module and
+    `sarama.Client` (regenerated from helpers/sarama.go on every run) hands every call and every answer
+    through unchanged and keeps no state of its own — asked of exactly its current leader, and every answer recorded as it was given. -/
+theorem shim_is_transparent : Shim.transparent Burrow.Generated.saramaShim = true := by decide
 
 end Burrow.Props.C11
